@@ -1,4 +1,5 @@
 import MtxVerif.Model.C26
+import MtxVerif.Model.C30
 open MtxVerif MtxVerif.C26
 
 /-- the driver is stateless: the model is `decode` = anchored + coherent (the code since 2f5d4aa). -/
@@ -65,7 +66,8 @@ def step (d : D) (op impl : String) : D × DrvOut :=
   match words op with
   | ["reset"] => (d, { model := "ok" })
   | ["rt", _zone, _tloc, fmtH, pathH, usS, "|", y, mo, dd, h, mi, s, f, off, unix, "|", tbS] =>
-    match Hex.decode fmtH, Hex.decode pathH, usS.toInt?, y.toInt?, mo.toNat?, dd.toNat?, h.toNat?, mi.toNat?,
+    -- the instant column may carry extra nanoseconds ("<µs>.<ns>"): the name only has microseconds (truncated)
+    match Hex.decode fmtH, Hex.decode pathH, ((usS.splitOn ".").headD "").toInt?, y.toInt?, mo.toNat?, dd.toNat?, h.toNat?, mi.toNat?,
       s.toNat?, f.toNat?, off.toInt?, unix.toInt? with
     | some fmt, some p, some us, some y, some mo, some dd, some h, some mi, some s, some f, some off, some unix =>
       let F : Fields := ⟨y, mo, dd, h, mi, s, f, off, unix⟩
@@ -94,6 +96,52 @@ def step (d : D) (op impl : String) : D × DrvOut :=
         | _ => if impl.startsWith "panic" then "FAIL implementation panicked" else "FAIL unparsable implementation answer"
       (d, { model, spec })
     | _, _, _, _, _, _, _, _, _, _, _, _ => (d, { model := "bad-op" })
+  | ["flow", _zone, _tloc, fmtH, pathH, usS, fileH, "|", y, mo, dd, h, mi, s, f, off, unix, "|", tbS] =>
+    match Hex.decode fmtH, Hex.decode pathH, ((usS.splitOn ".").headD "").toInt?, Hex.decode fileH, y.toInt?, mo.toNat?, dd.toNat?,
+      h.toNat?, mi.toNat?, s.toNat?, f.toNat?, off.toInt?, unix.toInt? with
+    | some fmt, some p, some us, some rel, some y, some mo, some dd, some h, some mi, some s, some f, some off, some unix =>
+      let F : Fields := ⟨y, mo, dd, h, mi, s, f, off, unix⟩
+      let tb := parseTable tbS
+      let cwd := strBytes "/tmp/vc26t"
+      let file := cwd ++ 47 :: rel
+      let E : C30.Env := { cwd, anch := true, coh := true, now := 0, cal := fun _ => 0, rx := fun _ _ => true }
+      -- the recorder's file as the model computes it
+      let recFile := C06.abs cwd (recorderName (fmt ++ C06.extMp4) p F)
+      let validName := (C06.isValidPathName p).isNone
+      let rp := C30.recPath E fmt p
+      let segM := if !validName then some "err" else
+        match C30.decodeAt E rp file with
+        | none => some "none"
+        | some m => (resolve tb (decodedStart m.caps)).map fun x => s!"{x}"
+      let fixedM := if C30.hasSegments E [file] { key := p, isRegexp := false, fmt := fmt, deleteAfter := 0 } then "1" else "0"
+      let rxL := C30.rxNames E [file] { key := strBytes "all_others", isRegexp := true, fmt := fmt, deleteAfter := 0 }
+      let rxM := if rxL.isEmpty then "-" else ",".intercalate (rxL.map Hex.encode)
+      let model := if recFile != file then s!"recorder-file-differs {Hex.encode file}" else
+        match segM with
+        | some sm => s!"seg={sm} fixed={fixedM} rx={rxM}"
+        | none => "-"
+      -- spec: the recorder's own file is recognised by all three flows as a segment of that path with that start
+      let toks1 := tokenize fmt
+      let toks2 := tokenize (substPath fmt p)
+      let demand := validName && pathCount toks1 == 1 && spliceFree fmt p && fieldsOK toks1 F && fieldsOK toks2 F
+      let spec :=
+        if !demand then "ok"
+        else
+          match words impl with
+          | [sg, fx, rx] =>
+            let expUs : Int := if hasKind .f toks2 then us else us - us.emod 1000000
+            let unamb := resolve tb (expectedStart toks2 F) == some expUs
+            let cleanName := C06.clean p
+            if !sg.startsWith "seg=" || sg == "seg=none" || sg == "seg=err" || sg.startsWith "seg=many" then
+              "FAIL FindSegments does not recognise the recorder's file as a segment of the path"
+            else if unamb && sg != s!"seg={expUs}" then "FAIL FindSegments reports another start instant for the recorder's file"
+            else if fx != "fixed=1" then "FAIL fixedPathHasSegments does not see the recorder's file"
+            else if !(((rx.drop 3).toString.splitOn ",").contains (Hex.encode cleanName)) then
+              "FAIL the path-listing flow does not report the path of the recorder's file"
+            else "ok"
+          | _ => s!"FAIL the recorder's file could not be written or found: {impl}"
+      (d, { model, spec })
+    | _, _, _, _, _, _, _, _, _, _, _, _, _ => (d, { model := "bad-op" })
   | "dec" :: _zone :: fmtH :: candH :: _ =>
     match Hex.decode fmtH, Hex.decode candH with
     | some fmt, some cand =>
